@@ -11,7 +11,7 @@ import ast
 
 import z3
 
-from .engine import (Atom, B, I, BoundMethod, ClassV, Closure, Coll, DictV, ModuleV, NONE, NoneV, Obj, Scalar, TupleV,
+from .engine import (Atom, B, I, Opaque, BoundMethod, ClassV, Closure, Coll, DictV, ModuleV, NONE, NoneV, Obj, Scalar, TupleV,
                      Unsupported, diff, empty_set, fresh, inter, mk_set, nonempty, set_sort, seteq, singleton, subset,
                      tuple_sort, union, val_of, z3_of)
 
@@ -180,6 +180,8 @@ class Lib:
             return ClassV(name)
         if name == "logger":
             return ModuleV("logger")
+        if name in ("config", "tqdm"):
+            return ModuleV(name)
         if name in ("permutations", "combinations", "product", "chain"):
             return ModuleV("itertools." + name)
         if name in ("_variable_or_iterable_to_set", "_powerset"):
@@ -405,6 +407,8 @@ class Lib:
             return Coll("iter", Atom, z3.Lambda([x], P(u, x)), nodup=True)
         if name.startswith("logger."):
             return NONE
+        if name == "tqdm":
+            return Scalar(fresh("pbar", Opaque))
         if name == "pgmpy.utils.sets._variable_or_iterable_to_set":
             # assumed contract of the helper (names are strings): None -> {}, a name -> {name}, an iterable -> frozenset(it)
             ex.assumed.add("pgmpy.utils.sets._variable_or_iterable_to_set: None -> {}, str -> {x}, iterable of str -> frozenset(x) (names are str)")
